@@ -178,6 +178,9 @@ fn serve_entropy(buf: &mut [u8], path: u8) -> bool {
         return false;
     }
     let node = NODE.with(|n| n.get());
+    if node >= 0 {
+        crate::rt::reacquire_if_lost();
+    }
     let ok = with(|s| {
         s.ent.fill(buf);
         s.ent_requests += 1;
@@ -235,6 +238,9 @@ pub unsafe extern "C" fn getrandom(buf: *mut libc::c_void, len: libc::size_t, fl
 pub unsafe extern "C" fn clock_gettime(clk: libc::clockid_t, ts: *mut libc::timespec) -> libc::c_int {
     if clk == libc::CLOCK_REALTIME && ACTIVE.load(Ordering::SeqCst) && !ts.is_null() {
         let node = NODE.with(|n| n.get());
+        if node >= 0 {
+            crate::rt::reacquire_if_lost();
+        }
         let r = with(|s| {
             if s.tick_max_ns > 0 {
                 let d = s.tick_rng.below(s.tick_max_ns as u64 + 1) as i64;
